@@ -55,6 +55,11 @@ class Rec(Component):
         add_resource_factory(lambda T=T, fam=fam, tag=tag: T(fam, f"{type(self).__name__}:{tag}:prepare-factory"), types=T)
 
     async def start(self) -> None:
+        from asphalt.core import Context
+
+        # (the component first uses a context of its own; what it publishes afterwards is still published by the component)
+        async with Context():
+            pass
         tag = self.kw.get("tag", "")
         fam = self.family + (tag if self.per_tag else "")
         add_resource(rtype(fam, "s")(fam, f"{type(self).__name__}:{tag}:start-default"))
